@@ -143,6 +143,15 @@ reg("C20", "invariants over returned states and helper outputs: tree walk of eve
     "Trusts the MuJoCo C engine for reference kinematics; half-cycle separation tolerance 1e-4 + 1e-6*n over n steps (float32 accumulation, measured); "
     "quick tier uses G1Standing only (other tasks compile for minutes).")
 
+reg("C01", "history + executable model: tuples returned by the real jitted env.step/env.reset compared with the functional components evaluated separately on the same (state, action), per-environment initial-support predicates, independent Python clocks for TimeLimit layers and a table interpreter for finite MDPs",
+    "Held on every step explored: for finite MDPs under 12-24 wrapper stacks, all classic-control envs (bare and stacked), MuJoCo envs and G1Standing the "
+    "reported reward and flags are those of exactly the transition taken; when a flag is raised the returned state lies in the initial support, is not the "
+    "successor, every episode clock and TimeLimit counter is restarted and the observation is the returned state's; otherwise state and observation are the "
+    "successor's; reset returns an initial state with its own observation; reset states are freshly drawn (different keys give different states). "
+    "Terminal-only, truncation-only and both-at-once endings are all required to occur.",
+    "Trusts the components evaluated separately (deterministic envs) and per-env initial-support predicates (Gaussian reset noise bounded at 6 sigma); "
+    "natural endings of MountainCar/Acrobot come from planted near-goal states.")
+
 
 def main():
     props = [json.loads(l) for l in (ROOT / "properties.jsonl").read_text().splitlines() if l.strip()]
